@@ -300,11 +300,27 @@ def r6_r7_splinecv(ctx):
                       bad="cross_val_score %s" % ("is called without %s: candidates are ranked with a different %s than requested" % (nm, nm) if v is None else "receives %s=%s" % (nm, show(v))), fn=qn)
         est = Q.arg(ctx, t, "estimator")
         est = est if isinstance(est, tuple) else None
-        ps_loop = [e for e in p.events if e.kind == "loop-enter" and e.data[1][0] == "comp"]
-        psets = ps_loop[0].data[1] if ps_loop else None
+        # the list of parameter sets is the comprehension the refit indexes: Spline(**parameter_sets[best]); the candidates loop over it (the
+        # engine records a loop over a comprehension as a loop over the comprehension's own sequence, elements transformed)
+        psets = None
+        for e in p.events:
+            if e.kind == "setattr" and e.data[0] == Q.SELF and e.data[1] == "spline_":
+                for x in walk(e.data[2]):
+                    if isinstance(x, tuple) and x and x[0] == "sub" and x[1][0] == "comp" and x[1][1] == "list":
+                        psets = x[1]
         ok = None
         if est is not None and est[0] == "call" and callee(est) == "verde.spline.Spline" and psets is not None:
-            ok = True if est[3] == ((None, ("elem", psets, ps_loop[0].data[0])),) else None
+            from ..terms import subst
+            loops = [e.data[0] for e in p.events if e.kind == "loop-enter" and e.data[1] == psets[3]]
+            for lid in loops:
+                el_ = subst(psets[2], {("elem", psets[3], psets[4]): ("elem", psets[3], lid)})
+                if est[3] == ((None, el_),):
+                    ok = True
+                elif el_[0] == "dict" and all(k is not None and is_const(k) for k, _v in el_[1]):
+                    # a dict with literal keys is spread into the call's keywords by the engine
+                    given = {k[1]: v for k, v in el_[1]}
+                    if all(Q.arg(ctx, est, k) == v for k, v in given.items()) and len(est[2]) + len(est[3]) == len(given):
+                        ok = True
         ctx.check("R6", "%s|candidate-per-parameter-set|%s" % (qn, tag), ok, "candidate k is Spline(**parameter_sets[k]), in the iteration order of parameter_sets", fn=qn)
         if psets is not None:
             el = psets[2]
